@@ -45,7 +45,7 @@ def run_histories(o, ctx, tier, seed, tag, n_quick, n_thorough, flt=None, max_he
         o.count("reqs=%d" % len(m["kinds"]))
         for k in m["kinds"]:
             o.count("kind=" + k)
-        if len(m["kinds"]) >= 2 or any(k in ("reqclose", "close", "hookdrop", "hookdropclose", "hookdropclosesend", "closeempty", "closer", "err", "errint", "errclose", "errkind", "silent") or k.startswith("stall") for k in m["kinds"]):
+        if len(m["kinds"]) >= 2 or any(k in ("reqclose", "close", "hookdrop", "hookdropclose", "hookdropclosesend", "closeempty", "closer", "err", "errint", "errclose", "errkind", "silent", "crlfpre", "hookstrip", "bigchunk") or k.startswith("stall") for k in m["kinds"]):
             o.nontrivial.add(c)
         if len(o.samples) < 5 and i % 37 == 0:
             o.samples.append({"case": c[:400], "impl": a[:300], "expected": ",".join(e)[:300]})
@@ -119,6 +119,37 @@ def run_faults(o, ctx, tier, seed, n_quick, n_thorough):
     o.extra["read_fault_cases"] = len(lines)
 
 
+def run_halfclose(o, ctx):
+    """a client that half-closes right after its last request (FIN readable together with the request, also while an earlier
+    request is still being handled) is still owed every response — in epoll mode as in the others"""
+    p1 = b"GET /p/1/2 HTTP/1.1\r\n\r\n"
+    r200 = "R200:0:" + hx(b"1,2")
+    po = b"POST /echo HTTP/1.1\r\nContent-Length: 3\r\n\r\nabc"
+    plans = [("P:S:%s,r,e/S:e" % hx(p1), [r200 + ",EOF", "EOF"]),
+             ("P:s:%s,r,S:%s,r,e/S:e" % (hx(p1), hx(p1)), [r200 + "," + r200 + ",EOF", "EOF"]),
+             ("P:s:%s,r,S:%s,r,e/P:S:%s,r,e/S:e" % (hx(po), hx(p1), hx(po)), ["R200:0:" + hx(b"abc") + "," + r200 + ",EOF", "R200:0:" + hx(b"abc") + ",EOF", "EOF"])]
+    lines = ["SERVE mode=%s threads=%d plan=%s" % (m, th, pl) for pl, _ in plans for m in ("epoll", "serve") for th in (1, 2)]
+    wants = [w for _, w in plans for m in ("epoll", "serve") for th in (1, 2)]
+    impl = C.run_sharded(ctx["kimpl"], lines, shards=min(C.NCPU, len(lines)))
+    for c, a, w in zip(lines, impl, wants):
+        o.evaluations += 1
+        p = a.split()
+        got = p[1].split("/") if len(p) >= 2 and p[0] == "V" else None
+        if got != w and len(o.violations) < 30:
+            o.violations.append({"case": c, "impl": a[:300], "expected": "/".join(w), "why": "request sent together with the client's half-close: transcript %s, specification %s" % (a[:80], "/".join(w)[:80])})
+    # the second request and the FIN arrive while the first request's (slow) handler is still running
+    slow = b"GET /slow/25 HTTP/1.1\r\n\r\n"
+    elines = ["EPOLL w=%d failadd=- plan=o0,s0:%s,y0,s0:%s,h0,r0,r0,r0,z" % (w, hx(slow), hx(p1)) for w in (1, 2, 2)]
+    want = ["R200:0:" + hx(b"slow"), r200, "EOF"]
+    for c, a in zip(elines, C.run_sharded(ctx["kimpl"], elines, shards=len(elines))):
+        o.evaluations += 1
+        m = [w_ for w_ in a.split() if w_.startswith("tr=")]
+        got = m[0][3:].split("/")[0].split(",") if m else None
+        if got != want and len(o.violations) < 30:
+            o.violations.append({"case": c, "impl": a[:300], "expected": ",".join(want),
+                                 "why": "epoll mode: next request and half-close arrive while the previous request is being handled: answers %s, specification %s" % (",".join(got or ["-"])[:80], ",".join(want))})
+
+
 def run_c07(o, ctx, tier, seed, replay=None):
     if replay is not None:
         impl = C.run_sharded(ctx["kimpl"], [replay["case"]])
@@ -139,22 +170,7 @@ def run_c07(o, ctx, tier, seed, replay=None):
     for v in sub.violations:
         v["why"] = "epoll mode: " + v["why"]
         o.violations.append(v)
-    # a client that half-closes right after its last request (FIN readable together with the request) is still owed the response
-    p1 = b"GET /p/1/2 HTTP/1.1\r\n\r\n"
-    r200 = "R200:0:" + hx(b"1,2")
-    po = b"POST /echo HTTP/1.1\r\nContent-Length: 3\r\n\r\nabc"
-    plans = [("P:S:%s,r,e/S:e" % hx(p1), [r200 + ",EOF", "EOF"]),
-             ("P:s:%s,r,S:%s,r,e/S:e" % (hx(p1), hx(p1)), [r200 + "," + r200 + ",EOF", "EOF"]),
-             ("P:s:%s,r,S:%s,r,e/P:S:%s,r,e/S:e" % (hx(po), hx(p1), hx(po)), ["R200:0:" + hx(b"abc") + "," + r200 + ",EOF", "R200:0:" + hx(b"abc") + ",EOF", "EOF"])]
-    lines = ["SERVE mode=%s threads=%d plan=%s" % (m, th, pl) for pl, _ in plans for m in ("epoll", "serve") for th in (1, 2)]
-    wants = [w for _, w in plans for m in ("epoll", "serve") for th in (1, 2)]
-    impl = C.run_sharded(ctx["kimpl"], lines, shards=min(C.NCPU, len(lines)))
-    for c, a, w in zip(lines, impl, wants):
-        o.evaluations += 1
-        p = a.split()
-        got = p[1].split("/") if len(p) >= 2 and p[0] == "V" else None
-        if got != w and len(o.violations) < 30:
-            o.violations.append({"case": c, "impl": a[:300], "expected": "/".join(w), "why": "request sent together with the client's half-close: transcript %s, specification %s" % (a[:80], "/".join(w)[:80])})
+    run_halfclose(o, ctx)
 
 
 def known_c07(o, ctx, k):
@@ -170,8 +186,10 @@ def known_c07(o, ctx, k):
 def run_c09(o, ctx, tier, seed, replay=None):
     if replay is not None:
         return run_c07(o, ctx, tier, seed, replay)
-    closing = {"reqclose", "reqnoclose", "close", "err", "errint", "errclose", "errkind", "silent", "hookdrop", "hookdropclose", "hookdropclosesend", "closeempty", "closer"}
+    closing = {"reqclose", "reqnoclose", "close", "err", "errint", "errclose", "errkind", "silent", "crlfpre", "hookstrip", "bigchunk", "hookdrop", "hookdropclose", "hookdropclosesend", "closeempty", "closer"}
     run_histories(o, ctx, tier, seed, "c09", 300, 10000, flt=lambda m: bool(closing & set(m["kinds"])), stalls=4)
+    # epoll mode decides persist / close through EpollJob::run: the same signals, plus the peer's half-close
+    run_halfclose(o, ctx)
 
 
 register("C07", lean=["Khttp.Props.C07", "Khttp.Props.C07Skeleton", "Khttp.Props.C07BodySkeleton", "Khttp.Props.C14Skeleton"], run=run_c07, known_check=known_c07,
@@ -432,7 +450,7 @@ def run_c05(o, ctx, tier, seed, replay=None):
 CONN_RULE = ("CONN histories (see C07) restricted to those containing a close-relevant request: Connection: close in 9 spellings/placements (case, comma lists, OWS incl. HTAB, repeated fields) and 6 look-alikes that are NOT close, "
              "handler response with connection: close, handler errors (Other and Interrupted), pre-routing Drop with/without close; observed: is the next request answered or is the connection at EOF. "
              "distinct_nontrivial = distinct histories with >= 2 requests or a closing outcome.")
-register("C09", lean=["Khttp.Props.C09", "Khttp.Props.C09Handle", "Khttp.Props.C07Skeleton"], run=run_c09, rule=CONN_RULE,
+register("C09", lean=["Khttp.Props.C09", "Khttp.Props.C09Handle", "Khttp.Props.C07Skeleton", "Khttp.Props.C14Skeleton"], run=run_c09, rule=CONN_RULE,
          assumptions=["lock-step client", "user handlers and hooks are parameters of the model (Cfg); handlers use the body reader through its public API"],
          explanation="Theorems (Props/C09): exact characterisation of the keep-alive decision of handle_one_request (handler path, hook-Drop path, rejected heads 400/431 with close, peer EOF), the close flag of an accepted request = "
                      "'some Connection field has a comma-separated element equal to close ignoring case and surrounding whitespace' (via C04 + C19), handle_connection stops at the first closing call and reads nothing afterwards, "
